@@ -81,9 +81,13 @@ ResponseOk(h, e) ==
   /\ PairOf(d.lines, S_status) = want
   /\ (dec \in {"forbidden", "not_found", "too_many"} => e.end.k = "fin" /\ f.n = Len(e.bytes))
 
+\* a datagram on the wire is the session's quarter stream id (shortest form) followed by exactly
+\* a payload the application sent - nothing before, nothing after
 DgramsOk(h) ==
   \A i \in Idx(h) : IsEv(h[i], "peer", "rx_dgram") =>
-     LET d == DatagramParse(h[i].bytes) IN d.k = "ok" /\ d.sid = Sid(h)
+     /\ LET d == DatagramParse(h[i].bytes) IN d.k = "ok" /\ d.sid = Sid(h)
+     /\ \E s \in Idx(h) : /\ IsOp(h[s], "app", "send_dgram") /\ h[s].res = "ok" /\ Has(h[s], "bytes")
+                           /\ VarintEnc(VShr2(Sid(h))) \o h[s].bytes = h[i].bytes
 
 CodesOk(h) ==
   /\ \A i \in Idx(h) : (IsEv(h[i], "peer", "peer_closed") /\ h[i].why.k = "ApplicationClosed"
